@@ -144,21 +144,44 @@ func (e *Engine) storeEffect(addr ssa.Value, res *effSet) {
 		case *ssa.FieldAddr:
 			pt := types.Unalias(x.X.Type()).Underlying().(*types.Pointer).Elem()
 			s := pt.Underlying().(*types.Struct)
-			if inner, ok := x.X.(*ssa.FieldAddr); ok {
-				v = inner
-				continue
+			// struct-typed fields of heap objects are flattened sub-objects: the key is that of the
+			// outermost selected field; what the chain is rooted in decides whether it is visible
+			var root ssa.Value = x.X
+			for {
+				if inner, ok := root.(*ssa.FieldAddr); ok {
+					root = inner.X
+					continue
+				}
+				break
 			}
-			if ia, ok := x.X.(*ssa.IndexAddr); ok {
-				v = ia
-				continue
+			var keys []string
+			var collect func(owner types.Type, st *types.Struct, i int)
+			collect = func(owner types.Type, st *types.Struct, i int) {
+				f := st.Field(i)
+				if fs, isS := isStructType(f.Type()); isS {
+					for j := 0; j < fs.NumFields(); j++ {
+						collect(f.Type(), fs, j)
+					}
+					return
+				}
+				keys = append(keys, fieldKey(owner, f.Name()))
 			}
-			if al, ok := x.X.(*ssa.Alloc); ok {
-				if al.Heap {
-					res.addFresh(fieldKey(pt, s.Field(x.Field).Name()))
+			collect(pt, s, x.Field)
+			switch r := root.(type) {
+			case *ssa.IndexAddr:
+				v = r
+				continue
+			case *ssa.Alloc:
+				if r.Heap {
+					for _, k := range keys {
+						res.addFresh(k)
+					}
 				}
 				return
 			}
-			res.keys[fieldKey(pt, s.Field(x.Field).Name())] = true
+			for _, k := range keys {
+				res.keys[k] = true
+			}
 			return
 		case *ssa.IndexAddr:
 			switch t := types.Unalias(x.X.Type()).Underlying().(type) {
@@ -179,9 +202,9 @@ func (e *Engine) storeEffect(addr ssa.Value, res *effSet) {
 			if !ok {
 				return
 			}
-			if s, isS := isStructType(pt.Elem()); isS {
-				for i := 0; i < s.NumFields(); i++ {
-					res.keys[fieldKey(pt.Elem(), s.Field(i).Name())] = true
+			if _, isS := isStructType(pt.Elem()); isS {
+				for _, k := range flatFieldKeys(pt.Elem()) {
+					res.keys[k] = true
 				}
 			} else {
 				res.keys[cellKeyOf(so, pt.Elem())] = true
@@ -202,9 +225,9 @@ func (e *Engine) callEffect(c *ssa.CallCommon, res *effSet) {
 	so := e.effSo
 	if c.IsInvoke() {
 		key := "(" + typeName(c.Value.Type()) + ")." + c.Method.Name()
-		con := e.cs.ByKey[key]
-		if con == nil {
-			con = e.cs.ByKey[e.localKey(c.Method.Pkg(), key)]
+		con, _ := e.ifaceContract(c.Value.Type(), c.Method)
+		if con != nil && con.Pure && !con.HasAssigns {
+			return
 		}
 		if con != nil && con.HasAssigns {
 			for _, a := range con.Assigns {
@@ -255,7 +278,11 @@ func (e *Engine) callEffect(c *ssa.CallCommon, res *effSet) {
 	}
 	// func value: named func type with a contract?
 	if n, ok := types.Unalias(c.Value.Type()).(*types.Named); ok {
-		if con := e.cs.ByKey["("+typeName(n)+")"]; con != nil && con.HasAssigns {
+		con, _ := e.ifaceContract(n, nil)
+		if con != nil && con.Pure && !con.HasAssigns {
+			return
+		}
+		if con != nil && con.HasAssigns {
 			for _, a := range con.Assigns {
 				for _, k := range e.resolveAssign(con, a, nil) {
 					if k == "*" {
@@ -294,8 +321,10 @@ func (e *Engine) stdlibEffects(fn *ssa.Function, res *effSet) {
 		switch u := t.Underlying().(type) {
 		case *types.Pointer:
 			if s, isS := isStructType(u.Elem()); isS {
+				for _, k := range flatFieldKeys(u.Elem()) {
+					res.keys[k] = true
+				}
 				for i := 0; i < s.NumFields(); i++ {
-					res.keys[fieldKey(u.Elem(), s.Field(i).Name())] = true
 					reach(s.Field(i).Type(), true)
 				}
 			} else {
